@@ -26,9 +26,11 @@ from .. import tables_c17
 from ..tables import TablesError
 
 PID = "C17"
+COVERAGE = {}         # line coverage of the files in scope, measured in the workers (sys.settrace)
 ORACLE_PROCS = 4      # exact-arithmetic oracle (pure python); small on purpose: the machine is shared
 PROOF_FILES = ["theories/Props/C17.v", "theories/Checker/TetMesh.v", "theories/Proofs/TetMeshPoly.v",
                "theories/Proofs/TetMeshCaps.v", "theories/Proofs/TetMeshCurved.v", "theories/Proofs/TetMeshBodyProofs.v",
+               "theories/Proofs/TetMeshBoxCom.v",
                "theories/Proofs/TetMeshBase.v", "theories/Proofs/TetMeshSym.v", "theories/Proofs/TetMeshBox.v",
                "theories/Proofs/TetMeshCyl.v", "theories/Proofs/TetMeshIcoKey.v", "theories/Proofs/TetMeshIcoPure.v",
                "theories/Proofs/TetMeshIco.v", "theories/Proofs/TetMeshHelpers.v"]
@@ -242,13 +244,19 @@ def gen_cases(rng, tier):
 def run_impl_cases(cases, tag):
     nw = min(cm.NCPU, max(1, len(cases) // 8))
     chunks = [cases[i::nw] for i in range(nw)]
-    res = cm.run_impl_parallel(PID, "c17", [dict(cases=c) for c in chunks], timeout=900, tag=tag)
+    res = cm.run_impl_parallel(PID, "c17", [dict(cases=c, coverage=True) for c in chunks], timeout=900, tag=tag)
     out = [None] * len(cases)
     for w, (rr, ch) in enumerate(zip(res, chunks)):
         idxs = list(range(w, len(cases), nw))
         if rr["status"] == "ok":
             for i, x in zip(idxs, rr["result"]["results"]):
                 out[i] = x
+            cov = rr["result"].get("coverage")
+            if cov:
+                for name, lines in cov["lines"].items():
+                    COVERAGE.setdefault(name, dict(lines=set(), hit=set()))
+                    COVERAGE[name]["lines"].update(lines)
+                    COVERAGE[name]["hit"].update(cov["hit"].get(name, []))
         else:
             singles = cm.run_impl_parallel(PID, "c17", [dict(cases=[c]) for c in ch], timeout=300, tag=tag + "_iso")
             for i, s in zip(idxs, singles):
@@ -443,6 +451,15 @@ def run(tier, seed, replay=None):
     results = run_impl_cases(cases, "impl")
     R.cov["evaluations"] = len(cases)
     lap("implementation")
+    covrep = {}
+    for name, d in sorted(COVERAGE.items()):
+        # def / class / import lines execute at import time, before tracing starts: count only lines inside functions
+        missed = sorted(d["lines"] - d["hit"])
+        covrep[name] = dict(executable_lines=len(d["lines"]), hit=len(d["hit"] & d["lines"]), not_hit=missed[:80])
+    R.cov["implementation_line_coverage"] = covrep
+    R.cov["implementation_line_coverage_note"] = (
+        "sys.settrace in the workers; lines executed at import time (def/class/import, decorators) and the visualisation-only "
+        "methods of RigidBody (artist_, make_artist, update_pose, youngs_modulus) appear as not hit")
 
     # 3. exact oracle on every result (process pool)
     cert_limit = 700 if tier == "quick" else 8000
